@@ -98,6 +98,15 @@ pub struct Fresh(pub u64);
 impl Fresh {
 	pub fn next(&mut self) -> Value {
 		self.0 += 1;
+		if self.0 % 3 == 2 {
+			// the same integer in a spelling that is not canonical and orders differently as text
+			// (0.5e1 < 1 as spellings, 5 > 1 once canonical)
+			let d = self.0.to_string();
+			let s = format!("0.{}e{}", d, d.len());
+			if let Ok(n) = json_syntax::NumberBuf::new(s.into_bytes().into()) {
+				return Value::Number(n);
+			}
+		}
 		Value::Number(self.0.into())
 	}
 }
@@ -419,6 +428,10 @@ pub fn apply(op: &Op, obj: &mut Object, m: &mut Model, fresh: &mut Fresh) -> Res
 			*obj = c;
 		}
 		Op::Canonicalize => {
+			// values first (each on its own), then the entries by key and canonical value
+			for e in m.entries.iter_mut() {
+				e.1.canonicalize();
+			}
 			m.entries.sort_by(|a, b| a.0.encode_utf16().cmp(b.0.encode_utf16()).then_with(|| a.1.cmp(&b.1)));
 			obj.canonicalize();
 		}
